@@ -448,4 +448,118 @@ example : ((cols ((readTsv exTextIn).headD [] |>.map lower)).toOption.map fun c 
       (c.idType, (readTsv exTextIn).tail.map fun r => ((psmOf c r).toOption.map (·.scan), isMbrRow c r))) =
     some (5, [(some (some 7), false), (some none, true), (some (some 7), false)]) := by decide +kernel
 
+/-! ### Round 6 (seeded C15-i): the result-file side of the join under every column layout the readers accept -/
+
+/-- "every MS/MS row whose raw file, scan number and modified sequence occur in the rescoring results" — for
+    Andromeda-style identifiers the key a result row is filed under is a function of its identifier cell
+    and its peptide cell ALONE (`andromedaKey`), the values are its score and PEP cells; the result
+    file may carry any other columns (`filename`, `ExpMass`, `CalcMass`, `Label`, `ScanNr`, …) in any
+    positions: two layouts whose rows agree on the four cells looked up BY NAME (and reach a `filename`
+    column where the header has one — the code reads that cell before it ignores it) give the same
+    parsed rows, hence the same dictionary and the same merged output, rows and text.  Adding,
+    removing or changing any other column, `filename` included, changes neither the key nor the output. -/
+theorem andromeda_key_ignores_other_columns
+    (hdr hdr' : Row) (c c' : PercCols) (hc : percCols hdr = .ok c) (hc' : percCols hdr' = .ok c')
+    (rows rows' : List Row) (hlen : rows.length = rows'.length)
+    (hrows : ∀ p ∈ rows.zip rows', SameReadCells c c' p.1 p.2) :
+    (∀ r : ResultRow, parseResultRow r = (andromedaKey r.psmId r.peptide).map (parsedOfKey · (r.score, r.pep))) ∧
+    resultRowsOf (hdr :: rows) = resultRowsOf (hdr' :: rows') ∧
+    (∀ before after files, mergeRaw (before ++ (hdr :: rows) :: after) files =
+                           mergeRaw (before ++ (hdr' :: rows') :: after) files) ∧
+    (∀ before after texts, mergeTextRaw (before ++ (hdr :: rows) :: after) texts =
+                           mergeTextRaw (before ++ (hdr' :: rows') :: after) texts) := by
+  have hfile : resultRowsOf (hdr :: rows) = resultRowsOf (hdr' :: rows') := by
+    simp only [resultRowsOf, hc, hc', bind, Except.bind]
+    exact mapM_zip_congr _ _ rows rows' hlen (fun p hp => rowCells_andromeda_congr c c' p.1 p.2 (hrows p hp))
+  have hmerge : ∀ before after files, mergeRaw (before ++ (hdr :: rows) :: after) files =
+      mergeRaw (before ++ (hdr' :: rows') :: after) files := by
+    intro before after files
+    unfold mergeRaw
+    rw [mapM_replace resultRowsOf _ _ hfile]
+  refine ⟨parseResultRow_eq_andromedaKey, hfile, hmerge, ?_⟩
+  intro before after texts
+  unfold mergeTextRaw
+  rw [hmerge]
+
+/-- the same for ANY identifier convention, naming what the prosit branch reads in addition: a result
+    row enters the dictionary through five cells — identifier, peptide, score, PEP and the `filename`
+    cell (`""` when the file has no such column) — and through nothing else; under `prosit` the key is
+    `prositKey psmId peptide filename` (the filename cell IS the raw file when it is not empty), under
+    every other `--pout_input_type` it is `andromedaKey psmId peptide`. -/
+theorem result_dictionary_reads_five_cells
+    (hdr hdr' : Row) (c c' : PercCols) (hc : percCols hdr = .ok c) (hc' : percCols hdr' = .ok c')
+    (rows rows' : List Row) (hlen : rows.length = rows'.length)
+    (hrows : ∀ p ∈ rows.zip rows', p.1[c.id]? = p.2[c'.id]? ∧ p.1[c.peptide]? = p.2[c'.peptide]? ∧
+        p.1[c.score]? = p.2[c'.score]? ∧ p.1[c.pep]? = p.2[c'.pep]? ∧ filenameCell c p.1 = filenameCell c' p.2) :
+    (∀ x : ResultCells, parseCells true x = (prositKey x.psmId x.peptide x.filename).map (parsedOfKey · (x.score, x.pep))) ∧
+    (∀ x : ResultCells, parseCells false x = (andromedaKey x.psmId x.peptide).map (parsedOfKey · (x.score, x.pep))) ∧
+    resultCellsOf (hdr :: rows) = resultCellsOf (hdr' :: rows') ∧
+    (∀ prosit before after, buildResultsOf prosit (before ++ (hdr :: rows) :: after) =
+                            buildResultsOf prosit (before ++ (hdr' :: rows') :: after)) := by
+  have hrow : ∀ p ∈ rows.zip rows', rowCells c p.1 = rowCells c' p.2 := by
+    intro p hp
+    obtain ⟨hid, hpe, hsc, hpp, hf⟩ := hrows p hp
+    unfold rowCells
+    rw [field_congr _ _ _ _ hid, field_congr _ _ _ _ hpe, field_congr _ _ _ _ hsc, field_congr _ _ _ _ hpp, hf]
+  have hfile : resultCellsOf (hdr :: rows) = resultCellsOf (hdr' :: rows') := by
+    simp only [resultCellsOf, hc, hc', bind, Except.bind]
+    exact mapM_zip_congr _ _ rows rows' hlen hrow
+  refine ⟨fun _ => rfl, fun x => ?_, hfile, ?_⟩
+  · show parseResultRow x.andromeda = _
+    rw [parseResultRow_eq_andromedaKey]; rfl
+  · intro prosit before after
+    have hparsed : parsedRowsOf prosit (hdr :: rows) = parsedRowsOf prosit (hdr' :: rows') := by
+      simp only [parsedRowsOf, hc, hc', bind, Except.bind]
+      exact mapM_zip_congr _ _ rows rows' hlen (fun p hp => by rw [hrow p hp])
+    unfold buildResultsOf
+    rw [mapM_replace (parsedRowsOf prosit) _ _ hparsed]
+
+/-- the prosit branch DOES read the `filename` cell: the same identifier and peptide under another
+    filename cell is another raw file (and may be another scan) -/
+example : prositKey "raw-1-12-AAmK-2" "_.AAmK._" "raw-1" = .ok ("raw-1", 12, "AAM[UNIMOD:35]K") ∧
+    prositKey "raw-1-12-AAmK-2" "_.AAmK._" "/data/raw-1.mzML" = .ok ("/data/raw-1.mzML", 12, "AAM[UNIMOD:35]K") ∧
+    prositKey "raw-1-12-AAmK-2-1" "_.AAmK._" "" = .ok ("raw-1", 12, "AAM[UNIMOD:35]K") ∧
+    prositKey "raw-1-12-AAmK-2" "_.AAmK._" "raw" = .ok ("raw", 1, "AAM[UNIMOD:35]K") ∧
+    prositKey "r-7.0-[UNIMOD:737]-AK-2" "_.[UNIMOD:737]-AK._" "r" = .ok ("r", 7, "[UNIMOD:737]-AK") ∧
+    prositKey "r-7-[UNIMOD:737]AK-2" "_.[UNIMOD:737]AK._" "r" = .ok ("r", 7, "[UNIMOD:737]-AK") := by decide +kernel
+
+/-- the andromeda key of the same row does not move: native Percolator layout with a `filename`
+    column in front of the score (value ≠ raw file), the mokapot layout with `CalcMass` and an empty
+    `filename` cell, and the plain native layout give the same dictionary and the same merged text -/
+private def exNative : List Row := [["PSMId", "score", "q-value", "posterior_error_prob", "peptide", "proteinIds"],
+  ["raw_2_b_007_2_1", "2.5", "0.01", "0.001", "-.AAM[16]K.-", "P1"]]
+private def exNativeFilename : List Row := [["PSMId", "filename", "score", "q-value", "posterior_error_prob", "peptide", "proteinIds"],
+  ["raw_2_b_007_2_1", "/data/raw_2_b.mzML", "2.5", "0.01", "0.001", "-.AAM[16]K.-", "P1", "P9"]]
+private def exMokapotExtra : List Row := [["SpecId", "Label", "ScanNr", "ExpMass", "CalcMass", "Peptide", "mokapot score", "filename",
+    "mokapot q-value", "mokapot PEP", "Proteins"],
+  ["raw_2_b_007_2_1", "1", "7", "500.1", "500.1", "-.AAM[16]K.-", "2.5", "", "0.01", "0.001", "P1"]]
+
+example : percCols (exNative.headD []) = .ok { id := 0, peptide := 4, score := 1, pep := 3, filename := none } ∧
+    percCols (exNativeFilename.headD []) = .ok { id := 0, peptide := 5, score := 2, pep := 4, filename := some 1 } ∧
+    percCols (exMokapotExtra.headD []) = .ok { id := 0, peptide := 5, score := 6, pep := 9, filename := some 7 } := by decide +kernel
+
+example : SameReadCells { id := 0, peptide := 4, score := 1, pep := 3, filename := none }
+    { id := 0, peptide := 5, score := 2, pep := 4, filename := some 1 } (exNative.getD 1 []) (exNativeFilename.getD 1 []) := by
+  refine ⟨by decide +kernel, by decide +kernel, by decide +kernel, by decide +kernel, ?_, ?_⟩
+  · intro f hf; cases hf
+  · intro f hf; cases hf; decide
+
+/-- the dictionary as a flat list of (raw file, scan, modified sequence, score, PEP) -/
+private def flatRes (r : Except String Results) : Option (List (String × Int × String × String × String)) :=
+  r.toOption.map (fun res => res.flatMap (fun e => e.2.map (fun kv => (e.1, kv.1.1, kv.1.2, kv.2.1, kv.2.2))))
+
+example : flatRes (buildResultsOf false [exNative]) = some [("raw_2_b", 7, "AAM(ox)K", "2.5", "0.001")] := by decide +kernel
+example : flatRes (buildResultsOf false [exNativeFilename]) = flatRes (buildResultsOf false [exNative]) := by decide +kernel
+example : flatRes (buildResultsOf false [exMokapotExtra]) = flatRes (buildResultsOf false [exNative]) := by decide +kernel
+-- the rewritten row of the example above
+example : (mergeTextRaw [exNative] [exTextIn]).toOption = (mergeTextRaw exRawResults [exTextIn]).toOption := by decide +kernel
+example : (mergeTextRaw [exNativeFilename] [exTextIn]).toOption = (mergeTextRaw [exNative] [exTextIn]).toOption := by decide +kernel
+example : (mergeTextRaw [exMokapotExtra] [exTextIn]).toOption = (mergeTextRaw [exNative] [exTextIn]).toOption := by decide +kernel
+
+/-- under `prosit` the raw file of the same kind of file IS the filename cell -/
+example : flatRes (buildResultsOf true [[["PSMId", "filename", "score", "q-value", "posterior_error_prob", "peptide", "proteinIds"],
+      ["raw-1-12-AAmK-2", "raw-1", "2.5", "0.01", "0.001", "_.AAmK._", "P1"],
+      ["raw-1-12-AAmK-2", "other", "1.5", "0.01", "0.5", "_.AAmK._", "P1"]]]) =
+    some [("raw-1", 12, "AAM[UNIMOD:35]K", "2.5", "0.001"), ("other", 1, "AAM[UNIMOD:35]K", "1.5", "0.5")] := by decide +kernel
+
 end PgFdr.C15
